@@ -36,6 +36,8 @@ def oracle(case):
     allowed = 1 if case["forced"] else n
     if case["outcome"] == "error":
         return "unexpected exception %s" % case["msg"]
+    if case["outcome"] == "runaway":
+        return "the loop neither returned nor raised within %s (it keeps cutting the increment)" % case["msg"]
     # load bookkeeping of each attempt
     for a in tr:
         if a["which"] != case["ndim"]:
